@@ -36,7 +36,7 @@ def val4(v):
     return ['O', repr(v)[:30], 0, []]
 
 
-def make_transformer(base, names, tnames, style, log):
+def make_transformer(base, names, tnames, style, log, vt=True):
     from lark import v_args
 
     def rule_cb(name):
@@ -77,7 +77,9 @@ def make_transformer(base, names, tnames, style, log):
         return f
     ns = {n: rule_cb(n) for n in names}
     ns.update({t: tok_cb(t) for t in tnames})
-    return type('T_' + style, (base,), ns)()
+    # visit_tokens=False: the class still HAS the token callbacks, but is told not to use them (hunted defect 48: the embedded
+    # transformer applied them all the same)
+    return type('T_' + style, (base,), ns)(visit_tokens=vt)
 
 
 def observe_case(spec):
@@ -96,15 +98,16 @@ def observe_case(spec):
         case['skip'] = type(e).__name__
         return case
     names, tnames, style = spec['names'], spec['tnames'], spec['style']
+    vt = spec.get('vt', True)
     elog = []
     try:
         emb = Lark(gtext, parser='lalr', maybe_placeholders=spec['ph'], keep_all_tokens=spec['ka'],
-                   transformer=make_transformer(Transformer, names, tnames, style, elog))
+                   transformer=make_transformer(Transformer, names, tnames, style, elog, vt))
         # the other three classes embedded as well (one of them per case, to keep the run short)
         ocls = (Transformer_NonRecursive, Transformer_InPlace, Transformer_InPlaceRecursive)[len(gtext) % 3]
         olog = []
         oemb = Lark(gtext, parser='lalr', maybe_placeholders=spec['ph'], keep_all_tokens=spec['ka'],
-                    transformer=make_transformer(ocls, names, tnames, style, olog))
+                    transformer=make_transformer(ocls, names, tnames, style, olog, vt))
     except Exception as e:
         case['skip'] = 'embedded: ' + type(e).__name__
         return case
@@ -131,13 +134,13 @@ def observe_case(spec):
             variants.append(['embedded-' + ocls.__name__, ['O', 'EXC:' + type(e).__name__, 0, []], []])
         for cls in (Transformer, Transformer_NonRecursive, Transformer_InPlace, Transformer_InPlaceRecursive):
             log = []
-            t = make_transformer(cls, names, tnames, style, log)
+            t = make_transformer(cls, names, tnames, style, log, vt)
             try:
                 r = t.transform(copy.deepcopy(tree))
                 variants.append([cls.__name__, val4(r), [val4(x) for x in log]])
             except Exception as e:
                 variants.append([cls.__name__, ['O', 'EXC:' + type(e).__name__, 0, []], []])
-        case['items'].append({'tree': c03.tree4(tree), 'cbs': list(names) + list(tnames), 'variants': variants, 'w': list(w), 'text': text})
+        case['items'].append({'tree': c03.tree4(tree), 'cbs': list(names) + (list(tnames) if vt else []), 'variants': variants, 'w': list(w), 'text': text})
     return case
 
 
@@ -157,7 +160,7 @@ def specs(tier, rng):
         names = [n for n in cand if rng.random() < 0.6]
         tnames = [t for t in ('A', 'B', '_C', 'D') if rng.random() < 0.5]      # _C / D reach the tree only under ! or keep_all_tokens
         out.append({'G': G, 'ka': rng.random() < 0.3, 'ph': rng.random() < 0.7, 'inputs': sorted(ins), 'names': names, 'tnames': tnames,
-                    'style': rng.choice(['plain', 'inline', 'tree', 'tree', 'wrapper'])})
+                    'style': rng.choice(['plain', 'inline', 'tree', 'tree', 'wrapper']), 'vt': i % 5 != 4})
     return out
 
 
